@@ -8,13 +8,14 @@ from datetime import datetime, timezone, timedelta
 from core import LeanDriver, err_kind, canon, CORPUS_DIR
 from gen import fields as genfields
 from gen import miphase as genmiphase
+from gen import ttshared as genttshared
 import lib_c03alias
 from lib_c03alias import AliasOracle, alias_group, alias_nontrivial
 from lib_c03fail import FailOracle, fail_group, fail_battery, fail_random, impl_seq, seq_requests
 from lib_c03stored import StoredOracle, stored_group, stored_nontrivial, stored_battery, stored_random, mi_phase_battery
 
 ID = "C03"
-GENERATORS = [genfields.generate, genmiphase.generate]
+GENERATORS = [genfields.generate, genmiphase.generate, genttshared.generate]
 LEAN_MODULES = ["FimVerif.Proofs.C03"]
 P = "FimVerif.C03."
 THEOREMS = [P + t for t in (
@@ -35,6 +36,8 @@ THEOREMS = [P + t for t in (
     "maintenance_text_roundtrip", "iso_subsecond_offset_counterexample", "pathinfo_text_roundtrip", "gateway_text_roundtrip", "location_text_roundtrip",
     # failed calls: the state after an exception (Model/CodecFail.lean)
     "ttuple_parse_failed_unchanged", "ttuple_history_type_ok", "ttuple_history_roundtrip",
+    # the validator object shared by the tuple classes: histories of lookups over several categories (Model/CodecShared.lean)
+    "ttuple_shared_validator_history", "ttuple_validator_memo_by_name_counterexample", "ttuple_validator_history_free_code",
     "setfields_failed_prefix", "setfields_single_failed_unchanged", "setfields_history_constructible", "setfields_failed_unchanged_counterexample",
     "pathinfo_set_failed_unchanged", "pathinfo_history_domain", "maintenance_failed_unchanged", "maintenance_history_finalized",
     # handles that outlive finalize (Model/CodecPhase.lean, flags probed by gen/miphase.py)
@@ -873,6 +876,15 @@ def gen_requests(M, rng, n):
         t = rng.choice(tuple_types(tt, cname))
         s = rng.choice(["", " ", "\t"]) + t + ":" + rng.choice(TV) + rng.choice(["", " ", "\n"])
         reqs.append([rng.choice(["tt.from", "tt.parse"]), cname, s])
+    # type names of EVERY category offered to every category (the validator behind the four classes is one shared helper object;
+    # the model's verdict is a function of (category, name) alone): a seeded order, so that a name meets its own category first in
+    # some runs and a foreign category first in others, and every (category, name) pair is asked more than once
+    every = sorted({t for c in TT for t in tuple_types(tt, c)})
+    cross = [[op, cname, t] for op in ("tt.new", "tt.from", "tt.parse") for cname in TT for t in every]
+    rng.shuffle(cross)
+    cross = cross + cross[:len(cross) // 3]
+    for op, cname, t in cross:
+        reqs.append([op, cname, t, "4"] if op == "tt.new" else [op, cname, t + ":4"])
     # --- the decoders on TEXT (json.loads inside the model): own encodings, re-spaced, with unknown keys, damaged
     def respace(t, r):
         try:
@@ -1684,6 +1696,86 @@ class Oracle(AliasOracle, FailOracle, StoredOracle):
         except Exception as e:
             self.bad("typed_tuple:name:%s:raises:%s" % (shape, kind(e)), "typed tuple raises", case)
 
+    def tt_cross(self, steps):
+        """A history over SEVERAL tuple classes in one process (they share one validator helper object): type names of any
+        category - its own or another one's - are offered to any class through the keyword constructor, fromstring= and the
+        re-parse setter.  Whatever was looked up before, in whatever category: the verdict on (class, type name) is the one of the
+        class's own type table and never changes during the history; an accepted tuple decodes from its own encoding; a refused
+        re-parse keeps the tuple; and every tuple built earlier in the history (of every class) still decodes from its own encoding
+        after every step."""
+        tt = self.M[6]
+        case = {"kind": "tt_cross", "steps": steps}
+        kept = {}          # class name -> [tuple, (type, val)] : the tuple the class's re-parse steps work on
+        made = []          # [class, tuple, (type, val)] of every tuple accepted so far
+        seen = {}
+        try:
+            for i, (cname, via, t, v) in enumerate(steps):
+                C = getattr(tt, cname)
+                own = tuple_types(tt, cname)
+                want = t in own
+                text = t + ":" + v
+                at = "step %d (%s %s %r)" % (i, cname, via, text)
+                x = None
+                try:
+                    if via == "new":
+                        x = C(atype=t, aval=v)
+                    elif via == "from":
+                        x = C(fromstring=text)
+                    else:
+                        if cname not in kept:
+                            k = C(atype=own[0], aval="kept")
+                            kept[cname] = [k, (own[0], "kept")]
+                            made.append([cname, k, kept[cname]])
+                        x = kept[cname][0]
+                        x.parse_from_string(text)
+                        kept[cname][1] = (t, v)
+                    got = True
+                except Exception as e:
+                    got = False
+                    self.res.count("tt-cross:refused:%s:%s" % (via, kind(e)))
+                    if via == "parse" and cname in kept and (kept[cname][0].type, kept[cname][0].val) != kept[cname][1]:
+                        self.bad("typed_tuple:cross:refused-but-changed", "a refused re-parse changed the tuple at " + at, case,
+                                 expected=list(kept[cname][1]), observed=[kept[cname][0].type, to_wire(kept[cname][0].val)])
+                        return
+                self.res.count("tt-cross:%s:%s" % ("own" if want else "foreign", "accepted" if got else "refused"))
+                if seen.setdefault((cname, t), got) != got:
+                    self.bad("typed_tuple:cross:verdict-changed-with-history",
+                             "the same type name %r was %s by %s earlier in the history and is %s at %s" %
+                             (t, "accepted" if not got else "refused", cname, "accepted" if got else "refused", at), case)
+                    return
+                if got != want:
+                    # the name was offered to ANOTHER class earlier in this very history (self-contained) / the verdict was
+                    # already off at the name's first use here (it follows something that happened before, in this process)
+                    hist = "after-other-class" if any(s[2] == t and s[0] != cname for s in steps[:i]) else "at-first-use"
+                    self.bad("typed_tuple:cross:%s:%s" % ("own-type-refused" if want else "foreign-type-accepted", hist),
+                             "%s: the type name %r is %s the class's own type table%s" % (at, t, "in" if want else "NOT in",
+                             "; the same name was offered to another class earlier in the history" if hist == "after-other-class" else ""), case,
+                             expected="accepted" if want else "refused", observed="accepted" if got else "refused")
+                    return
+                if got and via != "parse":
+                    made.append([cname, x, [None, (t, v)]])
+                for cn, y, exp in made:          # every tuple of the history, of every class, still decodes from its own encoding
+                    D = getattr(tt, cn)
+                    s = y.get_as_string()
+                    for how in ("fromstring", "parse"):
+                        try:
+                            if how == "fromstring":
+                                z = D(fromstring=s)
+                            else:
+                                z = D(atype=y.type, aval="")
+                                z.parse_from_string(s)
+                        except Exception as e:
+                            self.bad("typed_tuple:cross:%s:own-encoding-refused" % how,
+                                     "after %s the %s tuple %r no longer decodes from its own encoding (%s)" % (at, cn, s, kind(e)), case)
+                            return
+                        if (z.type, z.val) != exp[1] or z.get_as_string() != s:
+                            self.bad("typed_tuple:cross:%s:decodes-to-other-tuple" % how,
+                                     "after %s the %s tuple %r decodes to another tuple" % (at, cn, s), case,
+                                     expected=list(exp[1]), observed=[z.type, to_wire(z.val)])
+                            return
+        except Exception as e:
+            self.bad("typed_tuple:cross:raises:%s" % kind(e), "a typed tuple history over several classes raises", case)
+
 
     # ------------------------------------------------------------------
     # histories: aliasing and hidden state.  Rule: after ANY sequence of API calls and of in-place changes to objects
@@ -1992,6 +2084,8 @@ class Oracle(AliasOracle, FailOracle, StoredOracle):
             self.ttuple(c["class"], c["type"], c["val"])
         elif k == "ttuple_name":
             self.ttuple_name(c["class"], c["type"], c["val"], c["via"])
+        elif k == "tt_cross":
+            self.tt_cross([list(x) for x in c["steps"]])
         elif not self.run_alias_case(c) and not self.run_fail_case(c) and not self.run_stored_case(c):
             raise ValueError("unknown case kind %s" % k)
 
@@ -2144,6 +2238,18 @@ def battery(M):
                         B["TypedTuple"].append({"kind": "ttuple_name", "class": cname, "type": nm, "val": v, "via": via})
     B["TypedTuple"] += [{"kind": "ttuple", "class": "Label", "type": "mac", "val": "trail "}, {"kind": "ttuple", "class": "Label", "type": "vlan", "val": "  "},
                         {"kind": "ttuple", "class": "Capacity", "type": "ram", "val": 1000}, {"kind": "ttuple", "class": "Capacity", "type": "cpu", "val": 0}]
+    # histories over SEVERAL tuple classes (one shared validator object): a name of either class's table, or of neither, is offered to
+    # class A, then to class B, then to A again - every ordered pair of classes, every pair of entry points
+    for a in TT:
+        for b in TT:
+            if a == b:
+                continue
+            ta, tb = tuple_types(tt, a), tuple_types(tt, b)
+            names = [tb[0], ta[0], "nope"] + [t for t in ta if t in tb][:1]
+            for t in names:
+                for va in ("new", "from", "parse"):
+                    for vb in ("new", "from", "parse"):
+                        B["TypedTuple"].append({"kind": "tt_cross", "steps": [[a, va, t, "4"], [b, vb, t, "4"], [a, va, t, "a:b"], [b, "from", tb[-1], ""]]})
     fail_battery(M, B)          # every class: calls that are REJECTED must leave the value as it was (lib_c03fail)
     mi_phase_battery(M, B)      # handles taken while a maintenance record is built, used after every route into the finalized state
     stored_battery(M, B)        # histories of writes to the attribute of a model element where the text is stored (lib_c03stored)
@@ -2200,6 +2306,11 @@ def random_cases(M, rng, n):
             t = rng.choice([t.upper(), t.capitalize(), t.swapcase()])
         nm = rng.choice(BL) + t + rng.choice(BL)
         out.append({"kind": "ttuple_name", "class": cname, "type": nm, "val": rng.choice(["v", "", "a:b", "1", "x y"]), "via": rng.choice(["new", "parse"])})
+    every = sorted({t for c in TT for t in tuple_types(tt, c)}) + ["nope", ""]
+    for i in range(m):                                  # typed tuples: histories over several classes, type names of every category
+        pool = [rng.choice(every) for _ in range(rng.choice([1, 2, 3]))]
+        out.append({"kind": "tt_cross", "steps": [[rng.choice(list(TT)), rng.choice(["new", "from", "parse"]), rng.choice(pool),
+                                                   rng.choice(["4", "", "a:b", "x y", "é", "None"])] for _ in range(rng.choice([2, 3, 5, 8]))]})
     TAGS = ["a", "tag-1", "under_score", "A" * 255, "é", "0", "x" * 17]
     for i in range(m):
         ts = [rng.choice(TAGS) for _ in range(rng.choice([1, 2, 3, 8]))]
@@ -2417,7 +2528,7 @@ def group_of(case):
     if k in ("jsonfield", "update", "jf_history", "jsondata", "jd_history"):
         return case["class"]
     return {"tags": "Tags", "tags_history": "Tags", "gateway": "Gateway", "gw_history": "Gateway", "maintenance": "MaintenanceInfo",
-            "mi_history": "MaintenanceInfo", "ttuple": "TypedTuple", "ttuple_name": "TypedTuple"}.get(k) or ("ERO" if case.get("ero") else "PathInfo")
+            "mi_history": "MaintenanceInfo", "ttuple": "TypedTuple", "ttuple_name": "TypedTuple", "tt_cross": "TypedTuple"}.get(k) or ("ERO" if case.get("ero") else "PathInfo")
 
 
 def settle(res, order):
